@@ -7,6 +7,7 @@
 (* Atomic operations:                                                      *)
 (*    Nx(v)   Next(v)            Er   Error(cause 1)       Co  Complete    *)
 (*    Sub(i)  subscriber i subscribes (each id subscribes at most once)    *)
+(*    SubX(i) ... with a pre-built subscriber that is ALREADY unsubscribed  *)
 (*    SubU(i) ... with a pre-built subscriber that unsubscribes itself     *)
 (*            from inside the first value callback it receives             *)
 (*    Uns(i)  subscriber i unsubscribes                                    *)
@@ -110,6 +111,17 @@ Subscribe(i, self) ==
   /\ used' = used \cup {i}
   /\ UNCHANGED <<cfg, status>>
 
+\* a pre-built subscriber that was unsubscribed BEFORE it is handed to Subscribe: it receives nothing and is not registered (C03: a
+\* closed subscription holds nothing upstream - the subject must not keep it in its observer set)
+SubscribeClosed(i) ==
+  /\ Len(h) < MaxOps /\ i \notin used
+  /\ h' = Append(h, Rec("subX", i, NoDeliv, obs, status))
+  /\ used' = used \cup {i}
+  \* unicast hands its backlog to the subscriber that takes the slot, whatever that subscriber does with it (same rule as for the
+  \* self-unsubscribing subscriber): a closed subscriber drops it
+  /\ mem' = IF cfg.kind = "unicast" /\ status = "N" /\ obs = {} THEN <<>> ELSE mem
+  /\ UNCHANGED <<cfg, status, obs, selfUnsub>>
+
 Uns(i) ==
   /\ Len(h) < MaxOps /\ i \in used
   /\ obs' = obs \ {i} /\ selfUnsub' = selfUnsub \ {i}
@@ -119,7 +131,7 @@ Uns(i) ==
 Next ==
   \/ \E v \in {1, 2} : Nx(v)
   \/ Terminal("E") \/ Terminal("C")
-  \/ \E i \in Ids : (i = 1 \/ (i - 1) \in used) /\ (Subscribe(i, FALSE) \/ Subscribe(i, TRUE))     \* ids are taken in order (symmetry)
+  \/ \E i \in Ids : (i = 1 \/ (i - 1) \in used) /\ (Subscribe(i, FALSE) \/ Subscribe(i, TRUE) \/ SubscribeClosed(i))     \* ids are taken in order (symmetry)
   \/ \E i \in Ids : Uns(i)
 
 Spec == Init /\ [][Next]_vars
